@@ -584,6 +584,60 @@ def ob_p1_selection_native(gridname):
     return held("%d block executions, all requires and ensures hold; final tables agree with the real function" % steps)
 
 
+def ob_rwg_step_native(gridname):
+    """bounded link for `_rwg_step_block` (see ob_p1_selection_native): the extracted step of the first loop of _compute_rwg0_space_data is run by CPython along the
+    real loop order (the two lines of that loop outside the block - `has_dof = False` and the removal of elements without dof - are replayed by the driver) on real
+    grids, all option combinations and several segments: requires and ensures hold at every step, and dof count and final support equal the real function's."""
+    import itertools
+    from vlib import vrun as VR, vnative as VN, zoo as Z
+    from bempp_cl.api.space.space import _process_segments
+    from bempp_cl.api.space import maxwell_spaces as MX
+
+    block, contract, params = VR.native_block("contracts.dofmap_blocks", "_rwg_step_block")
+    grid = Z.grid_with_domains(gridname)
+    doms = sorted(set(int(d) for d in grid.domain_indices))
+    en, ptr = grid.edge_neighbors, None
+    from bempp_cl.api.utils.helpers import serialise_list_of_lists
+
+    en, ptr = serialise_list_of_lists(grid.edge_neighbors)
+    steps = 0
+    for segs in [None] + [[d] for d in doms] + [doms[:2]]:
+        for ibd, trunc in itertools.product((False, True), (False, True)):
+            support0, _ = _process_segments(grid, None, segs, None)
+            N = grid.number_of_elements
+            st = {"element_edges": np.asarray(grid.element_edges).astype(int), "edge_dofs": -np.ones(grid.number_of_edges, dtype=int), "edge_neighbors": np.asarray(en).astype(int),
+                  "edge_neighbors_ptr": np.asarray(ptr).astype(int), "support": np.asarray(support0).astype(int).copy(), "dof_count": 0, "has_dof": 0,
+                  "include_boundary_dofs": int(ibd), "truncate_at_segment_edge": int(trunc)}
+            for E in [int(e) for e in np.flatnonzero(st["support"])]:
+                st["has_dof"] = 0
+                for li in range(3):
+                    args = dict(st, element=E, local_index=li)
+                    env = VN.bind_shapes(contract, args)
+                    for t in contract["requires"]:
+                        if not VN.evaluate(t, env):
+                            return violated("the real execution reaches the RWG step block outside its `requires` (%s) on %s segments=%s" % (t[:90], gridname, segs),
+                                            witness={"grid": gridname, "segments": segs, "element": E, "local_index": li}, signature="rwg-step/requires", replay={"confirmed": True})
+                    old = {"old_" + k: (v.copy() if isinstance(v, np.ndarray) else v) for k, v in env.items()}
+                    res = block(*[args[p_] for p_ in params])
+                    env.update(old)
+                    env.update({"result": res, "result_0": res[0], "result_1": res[1], "result_2": int(res[2]), "result_3": int(res[3])})
+                    for t in contract["ensures"]:
+                        if not VN.evaluate(t, env):
+                            return violated("step block of _compute_rwg0_space_data violates its contract natively on %s segments=%s include_boundary_dofs=%s truncate=%s at element %d edge slot %d: %s"
+                                            % (gridname, segs, ibd, trunc, E, li, t[:120]), witness={"grid": gridname, "segments": segs, "element": E, "local_index": li},
+                                            signature="rwg-step/ensures", replay={"confirmed": True})
+                    st["dof_count"], st["has_dof"] = int(res[2]), int(res[3])
+                    steps += 1
+                if not st["has_dof"]:
+                    st["support"][E] = 0
+            dc, sup, l2g, mult = MX._compute_rwg0_space_data(np.asarray(support0).copy(), en, ptr, grid.element_edges, N, grid.number_of_edges, ibd, trunc)
+            if int(dc) != st["dof_count"] or not np.array_equal(np.asarray(sup).astype(bool), st["support"].astype(bool)):
+                return violated("dof count / support of the block-wise run differ from the real function on %s segments=%s include_boundary_dofs=%s truncate=%s (%s vs %s)"
+                                % (gridname, segs, ibd, trunc, st["dof_count"], int(dc)), witness={"grid": gridname, "segments": segs}, signature="rwg-step/real-function",
+                                replay={"confirmed": True})
+    return held("%d block executions, all requires and ensures hold; dof count and support agree with the real function" % steps)
+
+
 def main():
     run = Run("C09", "other")
     thorough = run.tier == "thorough"
@@ -599,10 +653,16 @@ def main():
     # dof and maps to its number; slot cover (used by C16); frame
     from vlib import vrun as VR
 
-    for blk in ("_p1_selection_block", "_p1_final_block", "_rwg_selection_block", "_rwg_final_block"):
+    for blk in ("_p1_selection_block", "_p1_final_block", "_rwg_selection_block", "_rwg_step_block", "_rwg_final_block"):
         VR.add_block(run, "contracts.dofmap_blocks", blk)
     for gname in ("screen2", "octa", "two_tets_face") + (("screen3", "cube12") if thorough else ()):
         run.add("_p1_selection_block::native[%s]" % gname, "bounded", ob_p1_selection_native, gname)
+    for gname in ("screen2", "octa", "two_tets_face") + (("screen3", "cube12") if thorough else ()):
+        run.add("_rwg_step_block::native[%s]" % gname, "bounded", ob_rwg_step_native, gname)
+    run.add("_rwg_step_block::canary", "cover", VR.ob_block_canary, "contracts.dofmap_blocks", "_rwg_step_block",
+            [("len(supported_neighbors) == 2", "len(supported_neighbors) >= 2"), ("len(supported_neighbors) == 1 and include_boundary_dofs", "len(supported_neighbors) == 1"),
+             ("if not truncate_at_segment_edge", "if truncate_at_segment_edge"), ("if support[e]", "if not support[e]"), ("support[cell] = True", "support[cell] = False"),
+             ("edge_dofs[edge_index] != -1", "edge_dofs[edge_index] != 0")])
     run.add("_p1_selection_block::canary", "cover", VR.ob_block_canary, "contracts.dofmap_blocks", "_p1_selection_block",
             [("not support[n]", "support[n]"), ("include_boundary_dofs or node_is_interior", "include_boundary_dofs and node_is_interior"),
              ("(not truncate_at_segment_edge) and include_boundary_dofs", "truncate_at_segment_edge and include_boundary_dofs"),
